@@ -256,18 +256,22 @@ CHECKS = {
 }
 
 EXTRA = {
-    "C02": "  Later rounds: the schema family with every first step followed by dumps / fresh loads in each format (NextThenRoundTrip); Rebuild (constructor keywords holding the stored trees of sub-configurations); Adopt (a configuration of another root assigned as a sub-configuration); save + load next to dumps + loads, compared as abstract trees; keys with '-' and '.', blank / 16 / 32-character secrets, 60-byte blobs.",
-    "C03": "  Key-file placement family (harness/props/persistk.py): SchemaK with three config types that may each name a key file x the root on the default or a named key file = 16 placements (quick: all-named + two seeded; thorough: all), real key files per placement, every ciphertext attributed to a key file by independent decryption, key files opened recorded by wrapping builtins.open.",
+    "C02": "  Later rounds: the schema family with every first step followed by dumps / fresh loads in each format (NextThenRoundTrip); Rebuild (constructor keywords holding the stored trees of sub-configurations); Adopt (a configuration of another root assigned as a sub-configuration); save + load next to dumps + loads, compared as abstract trees; keys with '-' and '.', blank / 16 / 32-character secrets, 60-byte blobs.  Round 7: an unbounded float with the infinities, secrets two list levels down, a second vault type of the same schema object and class name, key rotation between saves (Rekey).",
+    "C03": "  Key-file placement family (harness/props/persistk.py): SchemaK with three config types that may each name a key file x the root on the default or a named key file = 16 placements (quick: all-named + two seeded; thorough: all), real key files per placement, every ciphertext attributed to a key file by independent decryption, key files opened recorded by wrapping builtins.open.  Round 7: SchemaP nl = ListField(ListField(SecureField())), vault2 (one schema object and one class name, two key files), Rekey (every key file gets a new key between two saves; ciphertexts are attributed to the keys on file NOW).",
     "C07": "  Later rounds: malformed contents hex / hex+newline / key+LF / key+CRLF (ExtBad), an external writer replacing or removing the file while a context is open (ExternalDuring), Decrypt probing every 32-byte candidate key.",
-    "C08": "  Later rounds: Swap (the key file replaced between operations; stored shapes relative to the key now on file), EncryptPair (two encryptions of one plaintext: distinct IVs), BuildDefault (a secure field with a default), nonce count in the compared state, rare 4 KiB plaintexts.",
+    "C08": "  Later rounds: Swap (the key file replaced between operations; stored shapes relative to the key now on file), EncryptPair (two encryptions of one plaintext: distinct IVs), BuildDefault (a secure field with a default), nonce count in the compared state, rare 4 KiB plaintexts.  Round 7: DecryptExtended (1..15 bytes after the last block), FailedOpen (a failed session leaves nothing behind: FailedOpen, Encrypt, Swap, Encrypt).",
     "C09": "  Later rounds: challenge defaults (BuildDefault: salt drawn at build), hand-written digests in documents, non-digest values, secrets unique across names in the driver.",
     "C10": "  Sensitive composites (a sensitive typed list / dict) are Unmodelled in Render and skipped (counted).",
+    "C01": "  Round 7: SchemaB has file-name fields (exists true / false) below a start directory that is not the working directory; the Config world runs on the abstract file system of CincoFields.FsKind (scratch directory, working directory set per step).",
+    "C11": "  Round 7: a key declared twice (feature flag first, plain bool last: the section has no flag); a rejected insertion of a ready-made configuration is repeated with the same object and must be rejected again.",
+    "C13": "  The thorough tier found defect 509ec74 (an untyped DictField aliasing the assigned dict between configurations; repaired); the argument-aliasing probe now covers untyped dicts.",
+    "C14": "  Explicit assignment goes through the three public routes in turn: attribute, dotted item of the root, cmdline_args_override.",
     "C12": "  Also the schema family with every first step followed by reset of every key (NextThenReset), item-level reset and same-value item assignment on typed lists.",
     "C15": "  C15_DictItemError: item assignment / setdefault on typed dicts (incl. a map of typed maps) compare the full reference path with the key.",
     "C17": "  Keyword update, reflected add / or (radd, ror).",
     "C18": "  Formatter options (YAML root_key, XML root_tag, JSON pretty) given to loads(), under which the including document and the included files are read; a decoy load of another configuration from a sibling directory precedes each case.",
-    "C19": "  Later rounds: tuple-valued fields (Accepts / Coerces), destination names with $VARIABLE kept literally, destinations that are symbolic links, plain ints beyond 16 bits.",
-    "C20": "  Later rounds: classes local to a function and nested classes inside typing generics / unions (defect 2dbdf54 repaired), tuple return annotations (Unrendered), functools.partial instance methods, help text on fields, a Diagnoser that renders every field / annotation alone to name the shape a rejected stub fails on.",
+    "C19": "  Later rounds: tuple-valued fields (Accepts / Coerces), destination names with $VARIABLE kept literally, destinations that are symbolic links, plain ints beyond 16 bits.  Round 7: key-file state nodir (its directory does not exist: no key, no save); a missing earlier document is reported as a deviation.",
+    "C20": "  Later rounds: classes local to a function and nested classes inside typing generics / unions (defect 2dbdf54 repaired), tuple return annotations (Unrendered), functools.partial instance methods, help text on fields, a Diagnoser that renders every field / annotation alone to name the shape a rejected stub fails on.  Round 7: one virtual field object under two keys; virtual getters that are functools.partial objects / callable instances.",
 }
 
 PENDING_REASON = "check not built yet in this round (planned, see DESIGN.md section 5); nothing is claimed for it"
